@@ -258,11 +258,11 @@ func refCustom(ok func(string) bool) func(string) tri {
 // constraint catalogue
 
 type consDef struct {
-	Name  string   // short name used in signatures
-	Text  string   // spelling inside <...>
-	Ref   func(string) tri
-	Syms  []string // extra path symbols (values the base alphabet cannot spell)
-	Menu  []string // instantiation values: valid, invalid and unspecified exemplars
+	Name string // short name used in signatures
+	Text string // spelling inside <...>
+	Ref  func(string) tri
+	Syms []string // extra path symbols (values the base alphabet cannot spell)
+	Menu []string // instantiation values: valid, invalid and unspecified exemplars
 }
 
 const (
